@@ -11,7 +11,10 @@ use proptest::prelude::*;
 fn strategy(tier: Tier) -> BoxedStrategy<LedgerCase> {
     let mut p = GenParams::ledger();
     p.max_rows = tier.pick(16, 40);
-    ledger_strategy(p, 1)
+    // a quarter of the histories trade symbols that are not all upper case (the first of them is the one that may carry an opening position)
+    let mut mixed = p.clone();
+    mixed.secs = vec!["Brk.b", "xeqt", "FOO"];
+    prop_oneof![3 => ledger_strategy(p, 1), 1 => ledger_strategy(mixed, 1)].boxed()
 }
 
 pub fn classify(case: &LedgerCase, sec: &str, model: &crate::model::MResult, obs: &mut Obs) {
